@@ -4,7 +4,7 @@
    source (anchor suffix, remainder group, default placeholder regex). *)
 From Coq Require Import List NArith Bool.
 Import ListNotations.
-Require Import Verif.Lib.Wire Verif.Lib.PathNorm Verif.Lib.Utf8 Verif.Gen.Facts_C01 Verif.Model.C01 Verif.Proofs.C01
+Require Import Verif.Lib.Wire Verif.Lib.Text Verif.Lib.PathNorm Verif.Lib.Utf8 Verif.Gen.Facts_C01 Verif.Model.C01 Verif.Proofs.C01
   Verif.Proofs.C01_b Verif.Gen.Prog_C01 Verif.Proofs.C01_gen.
 Local Close Scope N_scope.
 Local Open Scope nat_scope.
@@ -312,3 +312,19 @@ Print Assumptions C01_history_spec_generated.
 Theorem C01_split_normal_generated : forall p, Forall normal_seg (gen_split_path_info p).
 Proof. exact gen_split_normal. Qed.
 Print Assumptions C01_split_normal_generated.
+
+(* ---- fifth round: Configurator.add_route under a route prefix (fragments of config/routes.py) *)
+Theorem C01_generated_nest_prefix_is_model : forall old new, gen_nest_prefix old new = nest_prefix_model old new.
+Proof. exact gen_nest_prefix_is_model. Qed.
+Print Assumptions C01_generated_nest_prefix_is_model.
+
+Theorem C01_generated_prefix_pattern_is_model : forall prefix inherit pattern,
+  gen_prefix_pattern prefix inherit pattern = prefix_pattern_model prefix inherit pattern.
+Proof. exact gen_prefix_pattern_is_model. Qed.
+Print Assumptions C01_generated_prefix_pattern_is_model.
+
+Theorem C01_prefix_keeps_pattern_end_generated : forall pf pattern inherit,
+  l_is_nil pf = false -> pattern <> [] ->
+  gen_prefix_pattern (Some pf) inherit pattern = rstrip_char 47%N pf ++ 47%N :: lstrip_char 47%N pattern.
+Proof. exact prefix_keeps_pattern_end. Qed.
+Print Assumptions C01_prefix_keeps_pattern_end_generated.
